@@ -405,7 +405,7 @@ def run(repo, rep):
 
     # ---------------------------------------------------------------- C01.h string syntax (home: C02)
     from .common import import_instances
-    nh = import_instances(repo, rep, 'C02', lambda i: i.rule in ('C02.e', 'C02.g', 'C02.a') or i.construct.startswith('pattern:'),
+    nh = import_instances(repo, rep, 'C02', lambda i: i.rule in ('C02.e', 'C02.g', 'C02.a') or i.construct.startswith(('pattern:', 'pieces-concatenate')),
                           'C01.h', 'a str/bytes leaf would not evaluate back to the same value')
     rep.floor('C01.h', nh, 40)
 
